@@ -367,6 +367,31 @@ def pair_block_text(fi: FuncInfo):
     return ast.unparse(out)
 
 
+def _kernel_handlers(prog: Program, roles: Roles) -> List[str]:
+    """Exception handlers (caught types, and whether they re-raise) in the update kernel and everything of the package it
+    reaches: what the kernel does on inputs where a partial operation fails."""
+    cg = CallGraph(prog, roles)
+    start = roles.model.lookup(KERNEL)
+    seen, todo, out = set(), [start] if start else [], []
+    while todo:
+        fi = todo.pop()
+        if fi is None or fi in seen:
+            continue
+        seen.add(fi)
+        for n in ast.walk(fi.node):
+            if isinstance(n, ast.Try):
+                for h in n.handlers:
+                    reraises = any(isinstance(x, ast.Raise) for x in ast.walk(h))
+                    out.append(f"{ast.unparse(h.type) if h.type is not None else 'BaseException'}{' (re-raised)' if reraises else ''}")
+                if n.finalbody:
+                    out.append("finally")
+            elif isinstance(n, ast.With):
+                out.append("with " + ", ".join(ast.unparse(i.context_expr.func) if isinstance(i.context_expr, ast.Call) else ast.unparse(i.context_expr) for i in n.items))
+        for cs in cg.callsites(fi):
+            todo.extend(cs.targets)
+    return sorted(out)
+
+
 def run_r194(prog: Program, rep: Report) -> None:
     by_name = {r.model.name: r for r in prog.roles()}
     pairs = [("BradleyTerryFull", "BradleyTerryPart", True), ("ThurstoneMostellerFull", "ThurstoneMostellerPart", False)]
@@ -378,6 +403,42 @@ def run_r194(prog: Program, rep: Report) -> None:
         kf, kp = by_name[full].model.lookup(KERNEL), by_name[part].model.lookup(KERNEL)
         tf, tp = (pair_block_text(k) if k else None for k in (kf, kp))
         c = f"per-pair exchange of {part} == {full}"
+        if claimed and kf and kp:
+            # the two kernels also have to fail alike: the exceptions they intercept (anywhere below the kernel) are the same
+            hf, hp = _kernel_handlers(prog, by_name[full]), _kernel_handlers(prog, by_name[part])
+            ce = f"exceptions intercepted below {part}.{KERNEL} == {full}.{KERNEL}"
+            if hf == hp:
+                rep.holds("R19.4", module=by_name[part].model.module.name, function=f"{part}.{KERNEL}", construct=ce, line=kp.node.lineno, detail={"handlers": hf})
+            else:
+                rep.violated("R19.4", module=by_name[part].model.module.name, function=f"{part}.{KERNEL}", construct=ce, line=kp.node.lineno,
+                             message=f"{part}'s kernel intercepts {hp or 'nothing'} where {full}'s intercepts {hf or 'nothing'}: where the guarded operation fails one model raises and the other "
+                                     "returns a value, so on two-team games partial pairing does not return exactly what full pairing returns")
+        if claimed:
+            # semantic comparison first: what one pair (i, q) adds to the accumulators behind the mu and sigma updates, as normal
+            # forms of the abstract evaluation under each relation of the two ranks (independent of how the kernel is spelled)
+            from ..poly import show
+            from .c07 import exchange_terms
+
+            try:
+                ef, why_f = exchange_terms(prog, by_name[full])
+                ep, why_p = exchange_terms(prog, by_name[part])
+            except Exception as e:  # the textual comparison below still decides
+                ef, ep, why_f, why_p = None, None, f"{type(e).__name__}: {e}", ""
+            if ef is not None and ep is not None and all(ef[r_].get("omega") and ef[r_].get("delta") for r_ in ("LT", "GT")):
+                diffs = [(rel, kind) for rel in ("LT", "EQ", "GT") for kind in ("omega", "delta") if ef[rel].get(kind) != ep[rel].get(kind)]
+                if not diffs:
+                    rep.holds("R19.4", module=by_name[part].model.module.name, function=f"{part}.{KERNEL}", construct=c, line=kp.node.lineno,
+                              detail={"how": "normal forms of the pair terms (omega, delta) under rank(q) <, =, > rank(i) are identical", "text_identical": tf is not None and tf == tp})
+                else:
+                    rel, kind = diffs[0]
+                    rep.violated("R19.4", module=by_name[part].model.module.name, function=f"{part}.{KERNEL}", construct=c, line=kp.node.lineno,
+                                 message=f"the per-pair exchange of {part} differs from {full}'s (the {kind} term when rank(q) {rel} rank(i)): on two-team games partial pairing no longer returns exactly "
+                                         f"what full pairing returns\n  {full}: {show(ef[rel].get(kind), 300)}\n  {part}: {show(ep[rel].get(kind), 300)}")
+                continue
+        if (tf is None or tp is None) and not claimed:
+            rep.assumed("R19.4", module=by_name[part].model.module.name, function=f"{part}.{KERNEL}", construct=c, line=kp.node.lineno if kp else 0,
+                        message="not compared: the per-pair block could not be located in both kernels (the statement does not claim these two models equal)")
+            continue
         if tf is None or tp is None:
             rep.undecided("R19.4", module=by_name[part].model.module.name, function=f"{part}.{KERNEL}", construct=c, message="could not locate the per-pair block (innermost loop calling the gamma callback)")
             continue
